@@ -1604,3 +1604,11 @@ Proof.
   - vm_compute. reflexivity.
   - intros H. specialize (H 0 _ 1 eq_refl eq_refl). vm_compute in H. discriminate.
 Qed.
+
+(* Discharging [merge_spec] once MergeProofs.v (C12) is part of the tree -- checked against its
+   lemmas merge_wf and merge_refines:
+     Require Import MergeProofs.
+     Lemma merge_spec_holds : merge_spec.
+     Proof. intros p1 p2 W1 W2. split; [apply merge_wf; auto|intros x y; apply merge_refines; auto]. Qed.
+   after which combined_uniform, pick_alphabet_reps, compact_eval and compile_successors_strict
+   apply with [merge_spec_holds] for their first premise. *)
